@@ -111,6 +111,19 @@ def norm_scale_free(rule, fname, out, hom, where):
         d = hom.deg(n.args[0])
         rule.require(True if d in (0, "any") else (None if d is None else False), f"{fname} norm of {T.show(n.args[0], 2)}", f"argument has degree {d} in the state unit",
                      f"the Euclidean norm is taken of a quantity of degree {d} in the state unit: its squares overflow for badly scaled states (1e300) although the norm is representable", where_of(n, where))
+        # a state-sized vector made unit-free by dividing by a scalar of its own unit is only safe if that scalar bounds every entry: the largest magnitude max|x_i|
+        a = n.args[0]
+        if isinstance(a, T.Term) and a.op == "div" and hom.deg(a.args[0]) not in (0, "any", None) and any(y is a.args[0] for y in T.subterms(a.args[1])):
+            x, m = a.args
+            core = m
+            if isinstance(core, T.Term) and core.op in ("np.where", "ite") and len(core.args) == 3:
+                core = core.args[1]  # where(m > 0, m, 1): the guard of the all-zero vector
+            if not (isinstance(core, T.Term) and core.op in ("np.amax", "np.max", "np.amin", "np.min", "np.mean", "np.sum", "np.median", "linalg.vector_norm")):
+                continue  # an elementwise divisor (the tolerance scaling atol + |y| rtol) is the business of R-C18-3
+            okm = isinstance(core, T.Term) and ((core.op == "np.amax" and isinstance(core.args[0], T.Term) and core.args[0].op == "np.abs" and core.args[0].args[0] is x)
+                                                or (core.op == "linalg.vector_norm" and core.args[0] is x and str(core.kwargs.get("order")) in ("inf", "np.inf")))
+            rule.require(okm, f"{fname} normaliser of {T.show(x, 2)}", "divided by its largest magnitude max|x_i|: every entry of the normalised vector lies in [-1, 1]",
+                         f"the vector is divided by {T.show(m, 4)}, which does not bound the magnitude of every entry (a large negative entry is not seen by a signed maximum): the squares can overflow or the quotient can be 0/inf", where_of(n, where))
 
 
 # ---------------------------------------------------------------------------
